@@ -27,6 +27,12 @@ CLAIMS = {
         'revoke/unrevoke closures (lists <= 2) and revoked-iff-member in the status check.',
    note='Trusted as C01. Outside: roaring set semantics and serialisation, zlib, base64 codec; large sets are exercised only by the native confirmation battery.',
    technique='SMT query over the symbolic deflate byte (z3, bit-vector base64 model) + ' + TECH_M, ref='DESIGN.md section 2 C06'),
+ 'C07': dict(
+   text='M: losslessness as wiring - for every credential/presentation field the claims location written by `new` equals the location read by try_into_*, '
+        'duplicated members are omitted from vc/vp, dates pass through to_unix/from_unix; binding audit of both check_consistency functions (every duplicated '
+        'member compared with its registered claim) and of nbf-else-iat through the year gate.',
+   note='Trusted as C01. Outside: the JSON text form (serde attributes), multi-subject credentials, to_unix/from_unix inverse (C13).',
+   technique=TECH_M, ref='DESIGN.md section 2 C07'),
  'C10': dict(
    text='M kernels: the five DID character classes equal the W3C/RFC 3986 ABNF sets for every Unicode scalar value; M audit: every constructor of the plain DID type '
         'passes check_validity, DID-URL split validates and clears parts, join/setters validate before mutating; K (thorough): local validators on 3 symbolic bytes.',
